@@ -71,6 +71,29 @@ def run(ctx):
     nh = I.lib.binop(I, MUL, n, h)
     dict_eq(ctx, "R1", "atoms(n*(f+g))", atoms(nh),
             {Fe: n * (q[0] + q[2]), ionI: n * q[1], O: n * q[3]}, s_mul)
+    # one species spread over several fragments (Fe_a + Fe_b, built by +, by += and as a sequence), then scaled
+    fa, fb = mk({Fe: q[0]}), mk({Fe: q[2]})
+    rep = I.lib.binop(I, ADD, fa, fb)
+    dict_eq(ctx, "R1", "atoms(n*(Fe_a + Fe_b)) = n*(a+b) [one species in two fragments]", atoms(I.lib.binop(I, MUL, n, rep)),
+            {Fe: n * (q[0] + q[2])}, s_mul)
+    seq = I.call(fm, [[(q[0], Fe), (q[2], Fe), (q[4], Fe)]], {})
+    dict_eq(ctx, "R1", "atoms(n*formula([(a,Fe),(b,Fe),(c,Fe)])) = n*(a+b+c)", atoms(I.lib.binop(I, MUL, n, seq)),
+            {Fe: n * (q[0] + q[2] + q[4])}, s_mul)
+    acc = mk({Fe: q[0]})
+    I.call(I.getattr(acc, "__iadd__"), [mk({Fe: q[2]})], {})
+    dict_eq(ctx, "R1", "atoms(n*(f += same species)) = n*(a+b)", atoms(I.lib.binop(I, MUL, n, acc)), {Fe: n * (q[0] + q[2])}, s_mul)
+    nested = I.call(fm, [[(q[0], [(q[1], [(q[2], Fe), (q[3], O)]), (q[4], Fe)])]], {})
+    dict_eq(ctx, "R1", "three levels of nesting: every enclosing count multiplies", atoms(I.lib.binop(I, MUL, n, nested)),
+            {Fe: n * q[0] * (q[1] * q[2] + q[4]), O: n * q[0] * q[1] * q[3]}, s_mul)
+    # two ions that differ only in the isotope are two species (as keys of atoms, in sums and in n*f)
+    Fe54 = w.isotope("Fe", 54)
+    ion54 = I.lib.subscript(I, I.getattr(Fe54, "ion"), I.getattr(ionI, "charge"))
+    both = I.lib.binop(I, ADD, mk({ionI: q[0]}), mk({ion54: q[1]}))
+    got_both = atoms(both)
+    ctx.check(isinstance(got_both, dict) and len(got_both) == 2, "R1", "ions of two isotopes of one element with the same charge stay two species",
+              f"atoms {_s(got_both)}", s_add)
+    if isinstance(got_both, dict) and len(got_both) == 2:
+        dict_eq(ctx, "R1", "atoms(Fe[56]{c}_a + Fe[54]{c}_b) keeps both counts", got_both, {ionI: q[0], ion54: q[1]}, s_add)
     # f += g
     f2 = mk({Fe: q[0], ionI: q[1]})
     fr = I.call(I.getattr(f2, "__iadd__"), [g], {})
@@ -94,7 +117,7 @@ def run(ctx):
     for label, res, operand in (("n*f", nf, f), ("n*f [single fragment]", nf1, f1), ("1*f", one, f), ("n*empty", ne, empty)):
         ctx.check(all(x is not operand for x in alts(res)), "R3", f"{label} is a new object on every path",
                   f"{label} can return its own operand, so a later += on the product rewrites the operand", s_mul)
-    ctx.floor("R1", 12)
+    ctx.floor("R1", 18)
 
     # ---- R2 mass / charge / fractions per atom kind --------------------------
     m = {k: mass_sym(s) for k, s in dict(element="Fe", isotope="Fe56", DT="D").items()}
